@@ -3,11 +3,12 @@
 substring, one overlay run each (no thorough tier). Prints exit code and the rules reported."""
 import json, os, re, subprocess, sys
 pid, sub = sys.argv[1], sys.argv[2]
+V = os.environ.get('VERIF_HOME', '/verif')
 bad = 0
-for e in json.load(open(f'/verif/selftest/mutants/{pid}.json')):
+for e in json.load(open(f'{V}/selftest/mutants/{pid}.json')):
     if sub not in e['name']: continue
     env = dict(os.environ, VERIF_NO_EVIDENCE='1', VERIF_OVERLAY_FILE=e['file'], VERIF_OVERLAY_OLD=e['old'], VERIF_OVERLAY_NEW=e['new'])
-    r = subprocess.run(['/verif/bin/egverify', '-property', pid], env=env, capture_output=True)
+    r = subprocess.run([V + '/bin/egverify', '-property', pid], env=env, capture_output=True)
     out = (r.stdout + r.stderr).decode(errors='replace')
     rules = sorted(set(re.findall(r'violated: (R-C\d+-\d+)', out)))
     want = e.get('expect', '')
